@@ -443,6 +443,36 @@ func c08Header(p *Prog, r *Report) {
 				}
 			}
 		})
+		if !okWire {
+			// the call sits in a constructor of the output file that translatePackage calls: splice only the
+			// functions that call the header function and read the operand in translatePackage's terms
+			keep := map[*ssa.Function]bool{}
+			callers := map[*ssa.Function]bool{}
+			for _, g := range p.FuncsIn(Mod) {
+				p.instrs(g, func(b *ssa.BasicBlock, i int, in ssa.Instruction) {
+					if c, ok := in.(*ssa.Call); ok && calleeOf(&c.Call) == f {
+						callers[g] = true
+					}
+				})
+			}
+			for _, g := range p.srcFuncs {
+				if g != tpk && !callers[g] {
+					keep[g] = true
+				}
+			}
+			if ips, ok := p.ipathsKeeping(tpk, keep); ok {
+				n, good := 0, 0
+				for _, ip := range ips {
+					for _, e := range ip.eventsOf(fullName(f)) {
+						n++
+						if len(e.Args) > 0 && strings.HasSuffix(e.Args[0], ".Ffi") {
+							good++
+						}
+					}
+				}
+				okWire = n > 0 && n == good
+			}
+		}
 		// some constructor in the package stores getFfi(its package parameter) into the Ffi field
 		gfStored := false
 		for _, g := range p.FuncsIn(Mod) {
